@@ -156,7 +156,21 @@ class SocketShim:
   def ntohs(x): return _swap(x, 2) if isinstance(x, (SymInt, SymBool)) else _socket.ntohs(x)
   @staticmethod
   def inet_aton(s):
-    if isinstance(s, core.SymStr): raise Inconclusive("inet_aton of symbolic text")
+    if isinstance(s, core.SymStr):
+      # model: exactly four decimal groups (the only form POX itself produces); anything else is rejected like the C call
+      parts = s.split('.')
+      if len(parts) != 4: raise OSError("illegal IP address string passed to inet_aton")
+      out = []
+      for p_ in parts:
+        if len(p_) == 0 or len(p_) > 3: raise OSError("illegal IP address string passed to inet_aton")
+        if len(p_) > 1 and bool(p_[0] == '0'): raise Inconclusive("inet_aton: octal group")
+        try: v = core.parse_int(p_, 10)
+        except ValueError: raise OSError("illegal IP address string passed to inet_aton")
+        if isinstance(v, SymInt):
+          if bool(v > 255): raise OSError("illegal IP address string passed to inet_aton")
+        elif v > 255: raise OSError("illegal IP address string passed to inet_aton")
+        out.append(v)
+      return SymBytes(out)
     return _socket.inet_aton(s)
   @staticmethod
   def inet_ntoa(b):
